@@ -27,7 +27,8 @@ MANIFEST = dict(
     text='Decides for every cell-type case and every outcome of every hash comparison that a proof is accepted only on paths that established: cell is a Merkle proof, its stored hash '
          '= expected, its child\'s level-0 hash = expected (generic check); root level-0 hash = block hash and the returned state hash is that of reference [2][1] (header check); '
          'two roots, header check passed, state root level-0 hash = state hash from the header, proved account cell level-0 hash = REPRESENTATION hash of the claimed state (account check). '
-         'The all-equal path of every scenario accepts. Concrete pruned trees (completeness for all prunings) rest on C02.',
+         'The all-equal path of every scenario accepts. Concrete pruned trees (completeness for all prunings) rest on C02.'
+         ' Completeness ingredients: level-mask union of ordinary cells and level selection of get_hash/get_depth for every mask and level.',
     note='trusted: interpreter, rope model, SHA-256 terms distinct unless identical. ShardStateUnsplit.deserialize is summarised (its conformance is C16). Not decided: completeness for arbitrary concrete prunings.',
     design_ref='DESIGN.md section 4 C11')
 
